@@ -46,6 +46,15 @@ RULE = (
     "line statements, the three comment kinds; (c) seeded random depth-bounded compositions of "
     "all of the above with generated partials, rendered against 5 data sets (2 fixed, empty, 2 "
     "random), in liquid2.Environment / liquid2.shopify.Environment with default_trim +, - or ~. "
+    "(d) state-bearing templates for the pickle clause: built by from_string(name, path, globals, "
+    "overlay_data), get_template[_async] from DictLoader, a TemplateSource(matter=…) loader with "
+    "uptodate None/function/partial, CachingDictLoader (cache hit), FileSystemLoader, "
+    "CachingFileSystemLoader and ChoiceLoader in a scratch directory, with five names defined in "
+    "every subset of the layers overlay > template globals > environment globals (and overridden or "
+    "not by render arguments), plus generated templates whose data arrives through those layers; "
+    "render/render_async on 3 argument sets, name, path, full_name(), str(), is_up_to_date[_async]() "
+    "and a probe template of the copied environment are compared before vs after 3 successive "
+    "pickle round trips and 3 deepcopies. "
     "Each shard first runs a fixed calibration list of tiny templates (not counted) so that "
     "mechanism keys come from unambiguous witnesses. "
     "distinct = hash(environment kind, subject text, partials); non-trivial = the "
@@ -69,6 +78,9 @@ ASSUMPTIONS = [
     "divergence already shown causal by a minimised witness in the same shard, else the first "
     "divergence of the minimised witness); hit counts per key are therefore approximate and a "
     "pervasive defect can hide a rarer one inside the same template (tiny unit templates limit that)",
+    "thread_safe=True caching loaders (a threading.Lock in the cache) are outside the judged set; "
+    "copy.deepcopy is checked alongside pickle because it goes through the same __reduce_ex__ "
+    "protocol (keys deepcopy-*), although the property text names only pickling",
     "cycle items never contain interpolated template strings in generated partials: the real cycle "
     "group key hashes such an item by object identity, which makes renders address-dependent",
 ]
@@ -1127,6 +1139,9 @@ def shards(tier: str, seed: int) -> list[dict[str, Any]]:
         specs.append({"kind": "units", "i": i, "n": nu})
     for i in range(nz):
         specs.append({"kind": "compose", "i": i, "n": nz, "count": count})
+    ns = 2 if tier == "quick" else 6
+    for i in range(ns):
+        specs.append({"kind": "state", "i": i, "n": ns})
     return specs
 
 
@@ -1140,6 +1155,10 @@ def floors(tier: str) -> dict[str, int]:
         "distinct_nontrivial": 800 * k,
         "roundtrips:corpus": 800,
         "set:features": 400,
+        "state_pickles": 500 * (1 if tier == "quick" else 6),
+        "state_compared": 800 * (1 if tier == "quick" else 6),
+        "state_cases_rendering": 250,
+        "set:state_paths": 16,
     }
 
 
@@ -1151,11 +1170,20 @@ def run_shard(spec: dict[str, Any], ctx: Ctx) -> None:
         _units(spec, ctx)
     elif kind == "compose":
         _compose(spec, ctx)
+    elif kind == "state":
+        from .. import c12_state
+
+        c12_state.run(spec, ctx)
 
 
 def replay(wit: dict[str, Any], ctx: Ctx) -> None:
     case = Case(wit.get("kind", "std"), wit["source"], wit.get("templates") or {}, wit.get("subject", ""),
                 wit.get("datas") or [{}])
+    if wit.get("check") == "state":
+        from .. import c12_state
+
+        c12_state.replay(wit, ctx)
+        return
     if wit.get("check") == "pickle":
         st, key, what = pickle_check(case)
         print(f"replay C12 pickle: status={st} key={key}\n  {what}")
